@@ -558,9 +558,14 @@ func (l *Ledger) parallelCheckTx(txs []*pb.Transaction, block *pb.InternalBlock)
 					mu.Unlock()
 				}
 				if !DisableTxDedup || !block.InTrunk {
-					hasTx, _ := l.confirmedTable.Has(tx.Txid)
+					hasTx, hasErr := l.confirmedTable.Has(tx.Txid)
 					mu.Lock()
 					txExist[string(tx.Txid)] = hasTx
+					if hasErr != nil {
+						// 查不出交易是否已存在时不能当作不存在处理(会跳过重复交易检查并覆盖原有记录), 让本次confirm失败
+						l.xlog.Warn("check tx existence failed when confirm block", "err", hasErr, "txid", utils.F(tx.Txid))
+						txData[string(tx.Txid)] = nil
+					}
 					mu.Unlock()
 				}
 				wg.Done()
@@ -715,7 +720,13 @@ func (l *Ledger) ConfirmBlock(block *pb.InternalBlock, isRoot bool) ConfirmStatu
 			batchWrite.Put(append([]byte(pb.ConfirmedTablePrefix), tx.Txid...), pbTxBuf)
 		} else {
 			//confirm表已经存在这个交易了，需要检查一下是否存在多个主干block包含同样trasnaction的情况
-			oldPbTxBuf, _ := l.confirmedTable.Get(tx.Txid)
+			oldPbTxBuf, getErr := l.confirmedTable.Get(tx.Txid)
+			if getErr != nil {
+				// 读不出原有记录时不能继续(空记录会被当成"原区块已被裁剪"而直接覆盖)
+				confirmStatus.Succ = false
+				confirmStatus.Error = getErr
+				return confirmStatus
+			}
 			oldTx := &pb.Transaction{}
 			parserErr := proto.Unmarshal(oldPbTxBuf, oldTx)
 			if parserErr != nil {
